@@ -142,7 +142,9 @@ func buildProject(a absProject) *types.Project {
 			s.Volumes = append(s.Volumes, types.ServiceVolumeConfig{Type: types.VolumeTypeVolume, Source: x, Target: "/" + x})
 		}
 		// bind mounts and anonymous volumes never count as references
-		s.Volumes = append(s.Volumes, types.ServiceVolumeConfig{Type: types.VolumeTypeBind, Source: "/v9", Target: "/bind"})
+		if i%2 == 0 {
+			s.Volumes = append(s.Volumes, types.ServiceVolumeConfig{Type: types.VolumeTypeBind, Source: "/v9", Target: "/bind"})
+		}
 		for k, x := range u["sec"] {
 			if k%2 == 1 || x == "x2" { // build secrets count as references too
 				if s.Build == nil {
@@ -344,7 +346,13 @@ func c15Step(c *core.Ctx, real *types.Project, pre absProject, o absOp, n int) (
 	for rep := 0; rep < 2; rep++ {
 		q2, err2 := applyOp(real, o)
 		if (err == nil) != (err2 == nil) || (err == nil && !reflect.DeepEqual(q, q2)) {
-			c.Report(core.Finding{Sig: "nonfunctional:" + o.Op, Detail: fmt.Sprintf("%s%v/%s applied twice to the same project gives different results: %+v vs %+v (errors %v / %v)", o.Op, o.Names, o.Policy, absOf(q, n), absOf(q2, n), err, err2),
+			desc := func(p *types.Project, e error) string {
+				if e != nil || p == nil {
+					return fmt.Sprintf("error %v", e)
+				}
+				return fmt.Sprintf("%+v", absOf(p, n))
+			}
+			c.Report(core.Finding{Sig: "nonfunctional:" + o.Op, Detail: fmt.Sprintf("%s%v/%s applied twice to the same project %+v gives different results: %s vs %s", o.Op, o.Names, o.Policy, pre, desc(q, err), desc(q2, err2)),
 				Replay: map[string]interface{}{"pre": pre, "op": o}})
 			break
 		}
@@ -581,7 +589,15 @@ func C15(c *core.Ctx) {
 		real, _ = real.WithProfiles([]string{})
 		for step := 0; step < 5; step++ {
 			pre := absOf(real, bigN)
-			o := ops6[rng.Intn(len(ops6))]
+			// the kind of operation first (prune is one operation among 329 otherwise), then its arguments
+			kind := []string{"profiles", "enable", "disable", "select", "prune"}[rng.Intn(5)]
+			var o absOp
+			for {
+				o = ops6[rng.Intn(len(ops6))]
+				if o.Op == kind {
+					break
+				}
+			}
 			if len(o.Names) > 3 && rng.Intn(2) == 0 {
 				o.Names = o.Names[:2]
 			}
